@@ -125,13 +125,17 @@ structure Opts where
   alwaysSecret : Bool := false
   alwaysCJ : Bool := false
   delayed : Bool := false
+  /-- `AlwaysSetAbsoluteExpiry` with a time in the far future -/
+  alwaysExp : Bool := false
 deriving DecidableEq, Repr
 
 def Opts.all (o : Opts) : Bool := o.loc && o.int
 
-/-- `Options.Apply` (the time stamps it updates are not modelled). -/
+/-- `Options.Apply` (the time stamps it updates are not modelled): `MakeSecret`, `MakeCrownJewel`, then
+    `SetAbsoluteExpiry` — which also clears the deletion mark (`m.Deleted = 0`). -/
 def applyOpts (o : Opts) (r : Rec) : Rec :=
-  { r with md := { r.md with secret := r.md.secret || o.alwaysSecret, cj := r.md.cj || o.alwaysCJ } }
+  let m := { r.md with secret := r.md.secret || o.alwaysSecret, cj := r.md.cj || o.alwaysCJ }
+  { r with md := if o.alwaysExp then { m with expires := 2, deleted := false } else m }
 
 /-- Storage kinds the harness runs: the in-memory hashmap (hands out its own record objects), bbolt (serialises),
     a harness-owned injected storage whose `Put` returns a normalised copy (like `config`'s), and the
@@ -198,9 +202,25 @@ def Sub.offer (s : Sub) (r : Rec) : Sub :=
     else { s with attempts := s.attempts ++ [(r, false)] }
   else s
 
+/-- The loop `for _, sub := range c.subscriptions` of `notifySubscribers`, iteration by iteration as it is written:
+    test, non-blocking send (`select { case sub.Feed <- r: … default: … }`), and then — for each of the three paths an
+    iteration can take — either the next subscription or the end of the loop. Which of the two is regenerated from
+    the source (`PB.Gen.Subs.notify…Exits`: a `return`/`break` on that path). -/
+def notifyLoop (r : Rec) : List Sub → List Sub
+  | [] => []
+  | s :: ss =>
+    if s.visible r then
+      if s.buf.length < PB.Gen.Subs.feedCap then
+        { s with buf := s.buf ++ [r], attempts := s.attempts ++ [(r, true)] } ::
+          (if PB.Gen.Subs.notifySentExits then ss else notifyLoop r ss)
+      else
+        { s with attempts := s.attempts ++ [(r, false)] } ::
+          (if PB.Gen.Subs.notifyFullExits then ss else notifyLoop r ss)
+    else s :: (if PB.Gen.Subs.notifySkipExits then ss else notifyLoop r ss)
+
 /-- `notifySubscribers` (sequentially: the whole loop). Also extends the ghost list of successful writes. -/
 def notify (st : St) (r : Rec) : St :=
-  { st with subs := st.subs.map (·.offer r), writes := st.writes ++ [r] }
+  { st with subs := notifyLoop r st.subs, writes := st.writes ++ [r] }
 
 /-! ## Controller and interface operations -/
 
@@ -214,6 +234,8 @@ structure Out where
   calls : List Call := []
   res : Except Err (Option Rec) := .ok none
   feeds : List (Nat × List Rec × Bool) := []
+  /-- answer of `Interface.Exists` -/
+  flag : Option Bool := none
 
 /-- What `storage.Put` stores and returns for `r`: the injected storage of the harness returns a normalised copy
     (as `config`'s storage returns the exported option), the others the record itself. -/
@@ -300,6 +322,9 @@ inductive Mod where
   | del | mksec | mkcj
   | exp (t : Nat)
   | ins (n : Int)
+  /-- `SetRelativateExpiry` with a duration ≤ 0: the metadata stays as it is (`Deleted = -0`, or no assignment at
+      all), the record is put all the same -/
+  | touch
 deriving DecidableEq, Repr
 
 def Mod.run (m : Mod) (o : Opts) (r : Rec) : Rec :=
@@ -309,6 +334,7 @@ def Mod.run (m : Mod) (o : Opts) (r : Rec) : Rec :=
   | .mkcj => let r := applyOpts o r; { r with md := { r.md with cj := true } }
   | .exp t => let r := applyOpts o r; { r with md := { r.md with expires := t, deleted := false } }
   | .ins n => applyOpts o { r with n := n }
+  | .touch => applyOpts o r
 
 /-- Get the record (hooks run), modify it in place, `Controller.Put` it. On a storage that hands out its own
     objects the modification is visible in the storage before the pre-put hooks run. -/
@@ -325,6 +351,15 @@ def ifaceGet (st : St) (o : Opts) (key : String) : Out :=
   match ifaceGetRec st o key with
   | (cs, .error e) => { calls := cs, res := .error e }
   | (cs, .ok (r, _)) => { calls := cs, res := .ok (some r) }
+
+/-- `Interface.Exists`: a `Get` whose answer is reduced to a Boolean — not found = no, permission denied = yes
+    (the record is there), any other error (a hook's veto) is handed on. The hooks run as for `Get`. -/
+def ifaceExists (st : St) (o : Opts) (key : String) : Out :=
+  match ifaceGetRec st o key with
+  | (cs, .ok _) => { calls := cs, flag := some true }
+  | (cs, .error .notfound) => { calls := cs, flag := some false }
+  | (cs, .error .denied) => { calls := cs, flag := some true }
+  | (cs, .error e) => { calls := cs, res := .error e }
 
 /-- Flush of the delayed-write cache: `PutMany` → `batchPutOrDelete`; no hooks, no subscribers. -/
 def flushStore (cfg : Cfg) (store : Store) : Store → Store
@@ -353,9 +388,12 @@ inductive Op where
   | put (o : Opts) (r : Rec) (isNew : Bool)
   | modify (o : Opts) (key : String) (m : Mod)
   | get (o : Opts) (key : String)
+  | exists_ (o : Opts) (key : String)
   | push (r : Rec)
   | flush
+  | putMany (o : Opts) (rs : List Rec)
   | drain
+  | drainOne (id : Nat)
 
 def step (st : St) : Op → St × Out
   | .subscribe id o q =>
@@ -371,12 +409,24 @@ def step (st : St) : Op → St × Out
   | .put o r isNew => ifacePut st o r isNew
   | .modify o key m => ifaceModify st o key m
   | .get o key => (st, ifaceGet st o key)
+  | .exists_ o key => (st, ifaceExists st o key)
   | .push r => (notify st r, {})
   | .flush => ({ st with store := flushStore st.cfg st.store st.wcache, wcache := [] }, {})
+  | .putMany o rs =>
+    -- `Interface.PutMany` (one batch, committed): all permissions required; `Options.Apply` on every record, then the
+    -- storage's batch writer — "nearly a direct database access": no hooks, no subscribers
+    if !o.all then (st, { res := .error .denied })
+    else ({ st with store := flushStore st.cfg st.store (rs.map (fun r => (r.key, applyOpts o r))) }, {})
   | .drain =>
     ({ st with subs := st.subs.map ({ · with buf := [] }),
                closed := st.closed.map (fun (s, u) => ({ s with buf := [] }, u)) },
      { feeds := st.subs.map (fun s => (s.id, s.buf, false)) ++ st.closed.map (fun (s, _) => (s.id, s.buf, true)) })
+  | .drainOne id =>
+    -- the subscriber of one subscription reads everything that is in its feed; the other feeds are left alone
+    ({ st with subs := st.subs.map (fun s => if s.id == id then { s with buf := [] } else s),
+               closed := st.closed.map (fun (s, u) => (if s.id == id then { s with buf := [] } else s, u)) },
+     { feeds := (st.subs.filter (·.id == id)).map (fun s => (s.id, s.buf, false)) ++
+                (st.closed.filter (·.1.id == id)).map (fun (s, _) => (s.id, s.buf, true)) })
 
 /-- Run a history; returns the final state and the outputs in order. -/
 def run (st : St) : List Op → St × List Out
